@@ -101,6 +101,26 @@ def oneChangeAtATime : List LStep → Bool → Nat → Option (Nat × String)
       else oneChangeAtATime rest armed' (k + 1)
     else oneChangeAtATime rest armed' (k + 1)
 
+/-- the configuration the server holds as its latest is carried by a configuration entry of its own
+    log at the index it names (or lies within its newest snapshot): a leader never adopts a
+    configuration it could not store -/
+def latestConfigInLog : List LStep → Nat → Option (Nat × String)
+  | [], _ => none
+  | s :: rest, k =>
+    let ok (v : View) : Bool :=
+      v.dead || v.vol.latestIdx == 0 ||
+      (match newestSnap v.dur with
+       | some sn => v.vol.latestIdx ≤ sn.idx
+       | none => false) ||
+      (match getLog v.dur.log v.vol.latestIdx with
+       | some e => e.kind == 5 && e.cfg == v.vol.latest
+       | none => false)
+    -- (requests of other servers are generated without regard to what is committed, and may cut
+    -- committed entries away: that is judged in the universe engine, where requests are realistic)
+    let own : Bool := match s.ev with | .rpc _ => false | _ => true
+    if own && ok s.pre.view && !ok s.post.view then some (k, "latest-configuration-is-not-in-the-log")
+    else latestConfigInLog rest (k + 1)
+
 /-- a membership call that names a stale prevIndex and is served at once (the gate is open) is
     refused and leaves the configuration alone -/
 def stalePrevRefused : List LStep → Nat → Option (Nat × String)
